@@ -1,6 +1,7 @@
 package props
 
 import (
+	"bytes"
 	"errors"
 	"fmt"
 	"io"
@@ -372,6 +373,162 @@ func c12Random(c *vk.Ctx, packet bool) bool {
 	c.Count(kind+"_handles_used", int64(len(handles)))
 	c.Max("max_handles_sharing_deliveries", int64(len(byHandle)))
 	return c12Released(c, kind, addr)
+}
+
+// c12PacketBurst: datagrams arriving back to back from two senders, several goroutines reading
+// concurrently on ONE handle (plus a second handle with one reader). Every datagram is
+// self-describing (id, sender, length, PRNG fill): each read returns exactly one datagram that
+// was sent - its own length, its own bytes, its own source address - and every datagram is
+// returned by exactly one read.
+func c12PacketBurst(c *vk.Ctx) bool {
+	m := service.NewListenerManager()
+	port := freePort()
+	addr := fmt.Sprintf("127.0.0.1:%d", port)
+	h1, err := m.ListenPacket(addr)
+	if err != nil {
+		c.Inconclusive("burst listen: " + err.Error())
+		return true
+	}
+	h2, _ := m.ListenPacket(addr)
+	const nSenders = 2
+	total := c.N(3000, 12000)
+	var senders []*net.UDPConn
+	for i := 0; i < nSenders; i++ {
+		u, err := net.DialUDP("udp", nil, &net.UDPAddr{IP: net.IPv4(127, 0, 0, 1), Port: port})
+		if err != nil {
+			c.Inconclusive("burst dial: " + err.Error())
+			return true
+		}
+		if rc, err := u.SyscallConn(); err == nil {
+			rc.Control(func(fd uintptr) { syscall.SetsockoptInt(int(fd), syscall.SOL_SOCKET, 32, 16<<20) })
+		}
+		defer u.Close()
+		senders = append(senders, u)
+	}
+	mk := func(id uint64, sender int, size int) []byte {
+		b := make([]byte, size)
+		copy(b, putU64(id))
+		b[8], b[9], b[10] = byte(sender), byte(size>>8), byte(size)
+		prngStream(id, 11, b[11:])
+		return b
+	}
+	var mu sync.Mutex
+	delivered := map[uint64]int{}
+	var bad atomic.Value
+	var nDelivered atomic.Int64
+	reader := func(pc net.PacketConn, name string, wg *sync.WaitGroup) {
+		defer wg.Done()
+		buf := make([]byte, 2048)
+		for {
+			for i := range buf[:32] {
+				buf[i] = 0xEE
+			}
+			n, from, err := pc.ReadFrom(buf)
+			if err != nil {
+				if !errors.Is(err, net.ErrClosed) {
+					bad.CompareAndSwap(nil, fmt.Sprintf("%s: ReadFrom error %v", name, err))
+				}
+				return
+			}
+			if n < 11 {
+				bad.CompareAndSwap(nil, fmt.Sprintf("%s: a read returned %d bytes; nothing shorter than 11 was sent", name, n))
+				continue
+			}
+			id, sender, size := u64(buf[:8]), int(buf[8]), int(buf[9])<<8|int(buf[10])
+			switch {
+			case size != n:
+				bad.CompareAndSwap(nil, fmt.Sprintf("%s: a read returned %d bytes of a datagram that was sent with %d", name, n, size))
+			case sender >= nSenders || from.String() != senders[sender].LocalAddr().String():
+				bad.CompareAndSwap(nil, fmt.Sprintf("%s: datagram of sender %d returned with source %v", name, sender, from))
+			case !bytes.Equal(buf[:n], mk(id, sender, size)):
+				bad.CompareAndSwap(nil, fmt.Sprintf("%s: datagram %x returned with altered content (first difference at %d of %d)", name, id, firstDiff(buf[:n], mk(id, sender, size)), n))
+			}
+			mu.Lock()
+			delivered[id]++
+			mu.Unlock()
+			nDelivered.Add(1)
+		}
+	}
+	var rwg sync.WaitGroup
+	for i := 0; i < 4; i++ {
+		rwg.Add(1)
+		go reader(h1, fmt.Sprintf("handle 1 reader %d", i), &rwg)
+	}
+	rwg.Add(1)
+	go reader(h2, "handle 2", &rwg)
+	var swg sync.WaitGroup
+	var sentN atomic.Int64
+	sentIDs := make([][]uint64, nSenders)
+	for si := range senders {
+		swg.Add(1)
+		sr := c.SubRng("c12burst", si)
+		go func(si int) {
+			defer swg.Done()
+			for j := 0; j < total/nSenders && bad.Load() == nil; j++ {
+				id := nextID(c.Batch)
+				size := 11 + sr.Intn(1400)
+				senders[si].Write(mk(id, si, size))
+				sentIDs[si] = append(sentIDs[si], id)
+				// closed loop with a window: back to back within the window, never far ahead of the readers
+				// (the shared socket keeps the kernel's default receive buffer: the window stays well below it)
+				if n := sentN.Add(1); j%8 == 7 {
+					for dl := time.Now().Add(2 * time.Second); nDelivered.Load() < n-24 && time.Now().Before(dl); {
+						time.Sleep(20 * time.Microsecond)
+					}
+				}
+			}
+		}(si)
+	}
+	c.Progress("C12 packet burst: %d datagrams, 2 senders, 4 readers on one handle + 1 on another", total)
+	swg.Wait()
+	for dl := time.Now().Add(3 * time.Second); nDelivered.Load() < sentN.Load() && time.Now().Before(dl); {
+		time.Sleep(time.Millisecond)
+	}
+	drops := lab.UDPDrops(addr)
+	h1.Close()
+	h2.Close()
+	done := make(chan struct{})
+	go func() { rwg.Wait(); close(done) }()
+	select {
+	case <-done:
+	case <-time.After(c12B):
+		c.Violation("C12/pending-call-not-unblocked-by-close", map[string]any{"kind": "packet", "phase": "burst, several readers per handle"})
+		return false
+	}
+	c.Eval("burst|packet|4-readers-on-one-handle")
+	if v := bad.Load(); v != nil {
+		c.Violation("C12/burst/read-returned-something-that-was-not-sent", map[string]any{"what": v, "datagrams_sent": sentN.Load()})
+		return false
+	}
+	mu.Lock()
+	defer mu.Unlock()
+	missing := 0
+	for _, ids := range sentIDs {
+		for _, id := range ids {
+			switch delivered[id] {
+			case 0:
+				missing++
+			case 1:
+			default:
+				c.Violation("C12/delivered-more-than-once", map[string]any{"kind": "packet", "phase": "burst", "times": delivered[id]})
+				return false
+			}
+		}
+	}
+	if len(delivered) > int(sentN.Load()) {
+		c.Violation("C12/burst/read-returned-something-that-was-not-sent", map[string]any{"distinct_ids_delivered": len(delivered), "sent": sentN.Load()})
+		return false
+	}
+	if missing > 0 {
+		if drops > 0 {
+			c.Inconclusive(fmt.Sprintf("burst: %d datagrams missing, %d dropped by the kernel at the socket", missing, drops))
+		} else {
+			c.Violation("C12/datagram-lost-while-a-handle-keeps-reading", map[string]any{"phase": "burst, several readers per handle", "missing": missing, "sent": sentN.Load(), "kernel_drops": drops})
+			return false
+		}
+	}
+	c.Count("burst_datagrams_each_returned_by_exactly_one_read", int64(len(delivered)))
+	return c12Released(c, "packet", addr)
 }
 
 // c12Released: after the last close the socket is released and nothing keeps running.
@@ -1157,6 +1314,9 @@ func c12Run(c *vk.Ctx) {
 	if !c12Forced(c) {
 		return
 	}
+	if !c12PacketBurst(c) {
+		return
+	}
 	if !c12FDExhaustion(c) {
 		return
 	}
@@ -1193,6 +1353,7 @@ func init() {
 			c.Require("forced_two_handles_accept_vs_close")
 			c.Require("forced_packet_request_taken_vs_close")
 			c.Require("fd_exhaustion_recoveries")
+			c.Require("burst_datagrams_each_returned_by_exactly_one_read")
 			c12Run(c)
 		},
 	})
